@@ -14,9 +14,9 @@ import (
 func init() {
 	register(&CheckSpec{
 		ID: "C09", Fn: c09,
-		Rule:        "one evaluation = one predicate call compared with refchess: HasCheck per position (cached flag exercised before/after do-undo, and after every undo of moves and null moves inside a search-like walk on one position object), IsAttacked and AttacksTo for all 64 squares x both colours (each call under recover), GivesCheck / IsLegalMove / DoMove+WasLegalMove for every pseudo-legal move; distinct = distinct position identities probed",
+		Rule:        "one evaluation = one predicate call compared with refchess: HasCheck per position (cached flag exercised before/after do-undo, and after every undo of moves and null moves inside a search-like walk on one position object), IsAttacked and AttacksTo for all 64 squares x both colours (each call under recover), GivesCheck / IsLegalMove / DoMove+WasLegalMove for every pseudo-legal move, the two legality tests also on a position object just set up from the FEN on which nothing else was asked before; distinct = distinct position identities probed",
 		Assumptions: []string{"E1/E2 en-passant conventions: required when the ep capture is legal, tolerated when it is only pseudo-legal, forbidden otherwise (incl. for the colour that just pushed)"},
-		Required:    []string{"positions", "attack_queries", "moves_checked", "ep_target_a_or_h_file", "ep_positions_white_to_move", "ep_positions_black_to_move", "e1_required", "e2_required", "castling_pseudo_illegal", "gives_check_true", "discovered_check_by_ep", "in_check_positions", "walk_hascheck_tests", "walk_null_moves"},
+		Required:    []string{"positions", "attack_queries", "moves_checked", "ep_target_a_or_h_file", "ep_positions_white_to_move", "ep_positions_black_to_move", "e1_required", "e2_required", "castling_pseudo_illegal", "gives_check_true", "discovered_check_by_ep", "in_check_positions", "walk_hascheck_tests", "walk_null_moves", "cold_legality_tests"},
 		MinEvals:    50000,
 	})
 }
@@ -200,6 +200,30 @@ func c09(c *Ctx) {
 		}
 		if p.StringFen() != before {
 			rep.Viol("predicates-modify-position", "position changed by predicate calls: "+before+" -> "+p.StringFen(), mk(nil))
+		}
+		// --- the legality tests on a cold object: a position just built from the FEN on which
+		// nothing was asked before (no cached in-check answer), each test alone and first
+		for mi, m := range moves {
+			rm := fromEng(m)
+			legalRef := b.IsLegal(rm)
+			if rm.Kind != rc.Castling && rm.Kind != rc.EnPassant && !want && mi%4 != 0 {
+				continue // every special move and everything while in check, a quarter of the rest
+			}
+			rep.Eval(2)
+			rep.Inc("cold_legality_tests")
+			cold := engPos(fen)
+			var wasLegal, isLegal bool
+			if pn, msg := guard(func() { cold.DoMove(m); wasLegal = cold.WasLegalMove(); cold.UndoMove() }); pn {
+				rep.Viol("WasLegalMove:panic", fmt.Sprintf("DoMove(%s)/WasLegalMove panics on a fresh position %s: %s", m.StringUci(), fen, msg), mk(nil))
+				continue
+			}
+			if wasLegal != legalRef {
+				rep.Viol("WasLegalMove:cold:"+moveClass(b, rm), fmt.Sprintf("on a position just set up from %s, after DoMove(%s) WasLegalMove()=%v, rules say %v", fen, m.StringUci(), wasLegal, legalRef), mk(map[string]interface{}{"move": m.StringUci()}))
+			}
+			cold2 := engPos(fen)
+			if pn, _ := guard(func() { isLegal = cold2.IsLegalMove(m) }); !pn && isLegal != legalRef {
+				rep.Viol("IsLegalMove:cold:"+moveClass(b, rm), fmt.Sprintf("on a position just set up from %s IsLegalMove(%s)=%v, rules say %v", fen, m.StringUci(), isLegal, legalRef), mk(map[string]interface{}{"move": m.StringUci()}))
+			}
 		}
 		// cached flag after do/undo excursions
 		rep.Eval(1)
